@@ -112,7 +112,8 @@ ATTS = [0, 1, 60]
 
 
 def run_config(arg):
-    (snd, toa, rssi, ci, vs, vr, default, mute), bursts, atts = arg
+    (snd, toa, rssi, ci, vs, vr, default, mute), bursts, atts = arg[:3]
+    late_fmt = arg[3] if len(arg) > 3 else 0
     defs = trxmodel.std_config()
     W = AppWorld(defs, choice_default=default)
     viol = []
@@ -120,11 +121,20 @@ def run_config(arg):
     cmds = list(PREFIX) + [(SND, c) for c in snd] + [(RCV, toa)]
     if rssi:
         cmds.append((RCV, rssi))
-    cmds += [(RCV, ci), (SND, "SETFORMAT %d" % vs), (RCV, "SETFORMAT %d" % vr)]
+    cmds += [(RCV, ci)]
+    fmt = [(SND, "SETFORMAT %d" % vs), (RCV, "SETFORMAT %d" % vr)]
     if mute:
         cmds.append((SND if mute == 1 else RCV, "RFMUTE 1"))
-    cmds += [(RCV, "POWERON"), (SND, "POWERON")]
-    cfgname = "v%dv%d" % (vs, vr)
+    if late_fmt == 0:
+        cmds += fmt + [(RCV, "POWERON"), (SND, "POWERON")]
+    elif late_fmt == 1:
+        # header version (re)negotiated while running: first the other version, power on, then the final one
+        cmds += [(SND, "SETFORMAT %d" % (1 - vs)), (RCV, "SETFORMAT %d" % (1 - vr)), (RCV, "POWERON"), (SND, "POWERON")] + fmt
+    else:
+        # negotiated, power cycled, simulation parameters changed while running
+        cmds += fmt + [(RCV, "POWERON"), (SND, "POWERON"), (RCV, "POWEROFF"), (SND, "POWEROFF"), (RCV, "POWERON"), (SND, "POWERON"),
+                       (SND, snd[0]), (SND, snd[1]), (RCV, toa), (RCV, ci)]
+    cfgname = "v%dv%d%s" % (vs, vr, "" if not late_fmt else "/order%d" % late_fmt)
     for i, c in cmds:
         v = W.ctrl(i, c)
         if v:
@@ -150,7 +160,7 @@ def run_config(arg):
         if v:
             kind = name.split("/")[0].rstrip("0123456789")
             viol.append(("C10:%s:%s:%s" % (cfgname, kind, v[0][0]),
-                         {"cfg": list(arg[0]), "burst": name, "bits": bits.hex(), "att": att, "fn": fn},
+                         {"cfg": list(arg[0]), "burst": name, "bits": bits.hex(), "att": att, "fn": fn, "order": late_fmt},
                          "cfg %r burst %s att %d: %s" % (arg[0], name, att, v[0][1])))
             if len(viol) > 5:
                 break
@@ -169,6 +179,9 @@ def run(ctx):
     toas = TOA_SET if not ctx.quick else TOA_SET[:1] + TOA_SET[3:]
     for snd, toa, rssi, ci, (vs, vr), d in itertools.product(SND_SET, toas, RSSI_SET, CI_SET, versions, (0, 1)):
         items.append(((snd, toa, rssi, ci, vs, vr, d, 0), reps, ATTS))
+    # the same settings applied in other orders relative to POWERON (re-negotiation while running, power cycle)
+    for snd, toa, (vs, vr), d, order in itertools.product(SND_SET[::3], toas[::2], versions, (0, 1), (1, 2)):
+        items.append(((snd, toa, RSSI_SET[2], CI_SET[1], vs, vr, d, 0), reps, ATTS[:2], order))
     nprod = len(items)
     full = full_bursts() + gen
     if ctx.quick:
@@ -210,7 +223,7 @@ def replay(ctx, case):
     cfg = tuple(tuple(x) if isinstance(x, list) else x for x in case["cfg"])
     bits = bytes.fromhex(case["bits"]) if case.get("bits") is not None else b""
     # re-run the whole configuration up to the burst (frame numbers are part of the case)
-    arg = (cfg, [(case["burst"], bits)], [case["att"]])
+    arg = (cfg, [(case["burst"], bits)], [case["att"]], case.get("order", 0))
     r = run_config(arg)
     for v in r["viol"]:
         ctx.violation(v[0], case, v[2])
